@@ -15,7 +15,11 @@
 (* value set of w; 2 -> choose a notation (tag, lit) of val; 3 = done.     *)
 (* (Enumeration is in Next so that all workers share it.)                  *)
 (*                                                                         *)
-(* Value sets.  SmallWidths: every value of -2^(w-1) .. 2^w-1.             *)
+(* Value sets.  SmallWidths and HexWidths: every value of                  *)
+(* -2^(w-1) .. 2^w-1 (HexWidths: u0x / s0x notations only, all digit       *)
+(* lengths: shortest, exactly the width's digits, one redundant leading    *)
+(* zero -- widths that are not a multiple of 4 are where a sign test on    *)
+(* the leading hex digit goes wrong).                                      *)
 (* BigWidths: 0, +-1, +-2^k, 2^k+-1, -(2^k+-1) for k in Exps, min, max,    *)
 (* max signed.  PatWidth (one width): numbers whose hexadecimal spelling   *)
 (* has length 4..16 and at most two distinct digits (HexA x HexB), in the  *)
@@ -32,7 +36,8 @@
 (***************************************************************************)
 EXTENDS Literals, Json, IOUtils
 
-CONSTANTS SmallWidths,   \* widths enumerated exhaustively (each <= 14)
+CONSTANTS SmallWidths,   \* widths enumerated exhaustively in every notation (each <= 14)
+          HexWidths,     \* widths enumerated exhaustively in the hexadecimal notations only (<= 14)
           BigWidths,     \* widths with boundary value sets
           Exps,          \* exponents k for the boundary sets
           PatWidth,      \* width for the hex-pattern values (0 = none)
@@ -71,8 +76,8 @@ PatValues == IF PatWidth = 0 THEN {}
              ELSE {IntVal(FALSE, HexToNat(hs)) :
                      hs \in UNION {PatShapes(n, a, b) : n \in 4..Min(16, PatWidth \div 4), a \in HexA, b \in HexB}}
 
-Widths == SmallWidths \cup BigWidths \cup (IF PatWidth = 0 THEN {} ELSE {PatWidth})
-Values(ww) == (IF ww \in SmallWidths THEN SmallValues(ww) ELSE {})
+Widths == SmallWidths \cup HexWidths \cup BigWidths \cup (IF PatWidth = 0 THEN {} ELSE {PatWidth})
+Values(ww) == (IF ww \in SmallWidths \cup HexWidths THEN SmallValues(ww) ELSE {})
               \cup (IF ww \in BigWidths THEN BigValues(ww) ELSE {})
               \cup (IF ww = PatWidth THEN PatValues ELSE {})
 
@@ -96,7 +101,9 @@ Notations(ww, v) ==
                      lit |-> <<115, 48, 120>> \o Map(HexByteU, NatToHex(NatNorm(Pattern(ww, v))))]}
       bools == IF ww # 1 \/ v.neg THEN {}
                ELSE {[tag |-> "bool", lit |-> IF v.mag = <<>> THEN LitFalse ELSE LitTrue]}
-  IN decs \cup u0xs \cup s0xs \cup bools
+  IN IF ww \in HexWidths \ SmallWidths
+     THEN {n \in u0xs \cup s0xs : n.tag \in {"u0x", "u0x-leading-zero", "s0x", "s0x-long", "s0x-short"}}
+     ELSE decs \cup u0xs \cup s0xs \cup bools
 
 Init == w = 0 /\ val = Zero /\ tag = "" /\ lit = <<>> /\ stage = 0
 Next == \/ stage = 0 /\ w' \in Widths /\ stage' = 1 /\ UNCHANGED <<val, tag, lit>>
